@@ -115,3 +115,79 @@ Proof. exact C05_proofs.real_run_accepted_lemma. Qed.
 Example wrong_bucket_rejected :
   scrape_ok [] [ex_three] [ex_three] (ex_expo 5) = false /\ scrape_ok [] [ex_three] [ex_three] (ex_expo 2) = true.
 Proof. exact C05_proofs.wrong_bucket_rejected_lemma. Qed.
+
+(* ====================================================================================================== *)
+(* Concurrency, ALL schedules (Model/NativeConc.v; proofs in Proofs/C05_conc_inv.v, C05_hom.v, C05_conc.v)   *)
+(* ====================================================================================================== *)
+(* Setting: zmachine = the native-only histogram of histogram.go as a Base.Conc step machine with integer counters:
+   threads run Observe v (any float: NaN, +-0, +-Inf, ...) and Write; one machine step per sync/atomic operation,
+   mutex operation, sync.Map operation or Gosched, in the order the code performs them; limitBuckets with the
+   zero-bucket widening and the bucket-width doubling (flip, cool-down wait, addAndResetCounts, per-bucket merge into
+   the hot counts) under h.mtx; Write's flip, cool-down, reads, addAndResetCounts and deferred merge.
+   Every theorem quantifies over ALL configurations g (schema, thresholds, bucket limit), ALL program lists progs
+   (any number of threads, any calls, any values) and ALL schedules sched; c is the configuration reached.
+   NOT modelled / NOT proved here: the reset strategy (NativeHistogramMinResetDuration > 0, timer), classic buckets
+   (C02), exemplars; that every counted value lies in the bucket exposed for it (containment) and WHICH observations
+   a Write counts (only how many) -- see the `_partial` names and checks/C05.json. *)
+From Verif Require Import Base.Conc Model.NativeConc Proofs.C05_conc.
+
+(* (a) Every completed Write is self-consistent and no Write panics: no population is negative, bucket keys are
+   strictly increasing, and the sample count is the zero bucket plus all positive and negative populations plus a
+   non-negative remainder nan_count E (the NaN observations counted: E is a list of no_count values whose non-NaN
+   members are exactly as many as zero bucket + populations). *)
+Theorem native_conc_scrape_consistent : forall (g : NativeHist.config) (progs : list (list nop)) (sched : list Z),
+  let c := run_sched zmachine (init_config zmachine (ninit Z 0 g) progs) sched in
+  forall k, In k (Conc.hist c) ->
+    c_ret k <> NPanic Z /\
+    forall o, c_ret k = NOut Z o ->
+      (forall p, In p (no_pos Z o ++ no_neg Z o) -> 0 <= snd p) /\ 0 <= no_zc Z o /\
+      keys_increasing (no_pos Z o) = true /\ keys_increasing (no_neg Z o) = true /\
+      exists E : list f64, no_count Z o = zlen E /\
+        no_zc Z o + zsum (map snd (no_pos Z o)) + zsum (map snd (no_neg Z o)) + nan_count E = no_count Z o.
+Proof. exact C05_conc.writes_ok_Z. Qed.
+
+(* (b, partial) Conservation at quiescence: once every call of every thread has returned -- whatever widenings,
+   halvings and Writes raced with the observers -- the mutex is free, the ticket counter and the hot count are the
+   number N of Observe calls of the program, the hot set satisfies count = zero bucket + populations + NaN with
+   non-negative populations and increasing keys, and the cold set is drained (count 0, zero bucket 0, every
+   remaining cold bucket 0): nothing was lost or duplicated, so the next Write (which flips, finds the cool-down
+   satisfied at once and reads this set) reports exactly N.
+   PARTIAL: containment (each observation in a bucket that contains it at the exposed schema and threshold) is
+   not proved for the concurrent machine; it is proved for the sequential model (C04, T2 above) and tested. *)
+Theorem native_conc_quiescent_accounts_partial : forall (g : NativeHist.config) (progs : list (list nop)) (sched : list Z),
+  let c := run_sched zmachine (init_config zmachine (ninit Z 0 g) progs) sched in
+  all_done zmachine c = true ->
+  let N := C05_conc.nobs_progs progs in
+  let h := sh c in let hot := nget Z h (nh_hot Z h) in let cold := nget Z h (negb (nh_hot Z h)) in
+  nh_mtx Z h = false /\ nh_tk Z h = N /\ ns_cnt Z hot = N /\
+  (forall p, In p (ns_pos Z hot ++ ns_neg Z hot) -> 0 <= snd p) /\ 0 <= ns_zb Z hot /\
+  keys_increasing (ns_pos Z hot) = true /\ keys_increasing (ns_neg Z hot) = true /\
+  (exists E : list f64, zlen E = N /\
+     ns_zb Z hot + zsum (map snd (ns_pos Z hot)) + zsum (map snd (ns_neg Z hot)) + nan_count E = N) /\
+  ns_cnt Z cold = 0 /\ ns_zb Z cold = 0 /\ (forall p, In p (ns_pos Z cold ++ ns_neg Z cold) -> snd p = 0).
+Proof. exact C05_conc.quiescent_Z. Qed.
+
+(* (c) No reachable configuration is a deadlock: whenever some call is unfinished some thread can take a step (the
+   only blocking operation is Mutex.Lock on a held mutex, and a held mutex has exactly one holder, which is never
+   blocked) ... *)
+Theorem native_conc_no_deadlock : forall (g : NativeHist.config) (progs : list (list nop)) (sched : list Z),
+  let c := run_sched zmachine (init_config zmachine (ninit Z 0 g) progs) sched in
+  all_done zmachine c = false -> exists tid, sched_step zmachine c tid <> None.
+Proof. exact C05_conc.no_deadlock_Z. Qed.
+
+(* ... and the cool-down spin (waitForCooldown in Write, maybeWidenZeroBucket and doubleBucketWidth) exits as soon as
+   no observer is left in flight on the cold set (such observers are never blocked; that the scheduler runs them is a
+   fairness assumption): stated on lmachine, the machine whose counters carry the observed values and of which
+   zmachine is the image under `length` (Proofs/C05_hom.v); F cold T = number of threads of T between their ticket
+   and their count increment on set `cold`. *)
+Theorem native_conc_spin_exits_partial : forall (g : NativeHist.config) (progs : list (list nop)) (sched : list Z),
+  let c := run_sched lmachine (init_config lmachine (C05_conc.linit g) progs) sched in
+  forall i t o k cold count inv, nth_error (thr c) i = Some t -> t_cur t = Some (o, xCool (list f64) k cold count, inv) ->
+  C05_conc.F cold (thr c) = 0 -> Z.of_nat (length (ns_cnt (list f64) (nget (list f64) (sh c) cold))) = count.
+Proof. exact C05_conc.spin_exits_L. Qed.
+
+(* zmachine is the image of lmachine: same programs, same schedule, counters replaced by their lengths *)
+Theorem native_conc_machines_agree : forall (g : NativeHist.config) (progs : list (list nop)) (sched : list Z),
+  run_sched zmachine (init_config zmachine (ninit Z 0 g) progs) sched =
+  C05_conc.zcfg (run_sched lmachine (init_config lmachine (C05_conc.linit g) progs) sched).
+Proof. exact C05_conc.zrun. Qed.
